@@ -34,6 +34,7 @@ RULE = (
     'Non-trivial: program has >=2 interacting construct groups (splat + nested call, closure '
     '+ helper, variable reused in two places, control flow + partial ...).'
 )
+RULE += (' ' + 'Round 6: arg_factory.partial factories that are themselves auto_config helpers; every built partial is called twice and what the two results share is compared with the plain function.')
 RULE += (' ' + 'Rounds 3-5: arg_factory.partial factories bound to variables used elsewhere; a user-defined exception class as configurable callable.')
 ASSUMPTIONS = [
     'programs whose plain Python run raises say nothing about the rewrite and are skipped',
@@ -151,7 +152,7 @@ def _exempt_names(p):
 
 
 def _canon(x):
-  return C.Canon(callable_probe=True).term(x)
+  return C.Canon(callable_probe=True, probe_twice=True).term(x)
 
 
 def check(case):
